@@ -196,6 +196,10 @@ func (c ConfigSpec) Bytes() (Config, error) {
 	if len(c.PublicKey) == 0 {
 		return nil, errors.New("invalid public key")
 	}
+	// A DHKEM(X25519, HKDF-SHA256) public key has 32 bytes.
+	if c.KEM == 0x0020 && len(c.PublicKey) != 32 {
+		return nil, errors.New("invalid public key length")
+	}
 	if len(c.CipherSuites) == 0 {
 		return nil, errors.New("invalid cipher suites")
 	}
